@@ -223,3 +223,19 @@ def loop(fx):
             if rp and const_int(strip_after(rp[0][2][1])) != 1:
                 okp = False
     yield ob("R-C16-4", "listener#reuse_port_before_bind", okp and n > 0, f, None, "set_reuse_port(true) precedes bind on all %d binding paths: %s" % (n, okp), {"paths": n})
+
+
+@PROP.rule("R-C16-5", floor=1, doc="no RefCell guard is alive at a suspension point of any async body of the HTTP tracker (a second borrower would panic and take the worker down)")
+def refcell_across_await(fx):
+    from aq import refcell
+    from aq.util import in_test_code as _t
+    n = 0
+    bad = []
+    for b in fx.bodies.values():
+        if b.crate not in ("aquatic_http",) or _t(b) or not any(blk["term"]["k"] == "yield" for blk in b.blocks):
+            continue
+        n += 1
+        for line, held in refcell.held_across_await(b):
+            bad.append("%s:%s holds %s (borrowed at line %s) across an await" % (b.short.split("::workers::")[-1], line, held[0][0], held[0][1]))
+    yield ob("R-C16-5", "await#http#no_refcell_guard_held", n >= 10 and not bad, None, None,
+             "%d async bodies analysed (may-hold dataflow of std::cell::Ref / RefMut locals to every yield): %s" % (n, bad[:4] or "none held across an await"), {"async_bodies": n, "held": bad[:10]})
